@@ -289,6 +289,8 @@ struct RegDriver {
     pool: Vec<(&'static str, Vec<D>)>,
     start: Vec<usize>,
     programs: Vec<Vec<Op>>,
+    /// hash seed of the registry's collector map (fixes its iteration order for all executions of this driver)
+    map_seed: u64,
 }
 
 struct RegSpec {
@@ -359,7 +361,10 @@ impl Driver for RegDriver {
         self.programs.len()
     }
     fn setup(&self) -> Registry {
+        // the scheduler re-executes schedules: the collector map must iterate in the same order every time
+        prometheus::verif::set_map_seed(Some(self.map_seed));
         let r = Registry::new();
+        prometheus::verif::set_map_seed(None);
         for &i in &self.start {
             r.register(real_collector(i, &self.pool[i].1)).unwrap();
         }
@@ -384,12 +389,12 @@ impl Driver for RegDriver {
         }
     }
     fn spec(&self) -> serde_json::Value {
-        json!({"kind": "registry", "start": self.start, "programs": self.programs})
+        json!({"kind": "registry", "start": self.start, "programs": self.programs, "map_seed": self.map_seed})
     }
 }
 
 fn reg_driver_from_spec(v: &serde_json::Value) -> Option<RegDriver> {
-    Some(RegDriver { pool: pool(), start: serde_json::from_value(v["start"].clone()).ok()?, programs: serde_json::from_value(v["programs"].clone()).ok()? })
+    Some(RegDriver { pool: pool(), start: serde_json::from_value(v["start"].clone()).ok()?, programs: serde_json::from_value(v["programs"].clone()).ok()?, map_seed: v["map_seed"].as_u64().unwrap_or(1) })
 }
 
 fn parse_op(s: &str, pool: &[(&'static str, Vec<D>)]) -> Op {
@@ -502,19 +507,19 @@ fn main() {
                 continue;
             }
             for start in [vec![7usize], vec![0, 7]] {
-                drivers.push(RegDriver { pool: cpool.clone(), start, programs: vec![progs[i].clone(), progs[j].clone()] });
+                drivers.push(RegDriver { pool: cpool.clone(), start, programs: vec![progs[i].clone(), progs[j].clone()], map_seed: 1 + (i + j) as u64 % 3 });
             }
         }
     }
     for i in 0..alpha.len() {
         for j in i..alpha.len() {
             for k in j..alpha.len() {
-                drivers.push(RegDriver { pool: cpool.clone(), start: vec![7], programs: vec![vec![alpha[i].clone()], vec![alpha[j].clone()], vec![alpha[k].clone()]] });
+                drivers.push(RegDriver { pool: cpool.clone(), start: vec![7], programs: vec![vec![alpha[i].clone()], vec![alpha[j].clone()], vec![alpha[k].clone()]], map_seed: 1 + (i + j + k) as u64 % 3 });
             }
         }
     }
     let nd = drivers.len();
-    let results = vsched::explore_many(drivers, vsched::Mode::U, 300_000, 3, 16, |d| RegDriver { pool: d.pool.clone(), start: d.start.clone(), programs: d.programs.clone() });
+    let results = vsched::explore_many(drivers, vsched::Mode::U, 300_000, 3, 16, |d| RegDriver { pool: d.pool.clone(), start: d.start.clone(), programs: d.programs.clone(), map_seed: d.map_seed });
     let summary = vsched::fold_results(&mut rep, results);
     rep.extra.insert("concurrent_part".into(), json!({"drivers": nd, "modes": summary}));
     rep.rule.push_str(&format!(" In addition (E1): {} concurrent drivers (all pairs of programs of <=2 calls, quick: total <=3, and all triples of 1-call programs over register(k1), register(k3), unregister(k8), register(k8), unregister(k1), register(k7), gather) on one shared Registry, every interleaving at lock operations and call boundaries; histories must be linearizable w.r.t. the reference registry.", nd));
